@@ -30,7 +30,7 @@ Trees are plain tuples:
              where, order, limit, offset})
 
 Errors
-  SqlIllFormed   the text is not SQL: illegal character, unterminated literal, unbalanced parenthesis, bare word
+  SqlIllFormed   the text is not SQL: comment start (`--`, `/*`), illegal character, unterminated literal, unbalanced parenthesis, bare word
                  that is neither keyword nor function nor known identifier (e.g. `None`), missing operand,
                  leftover tokens, placeholder without a bound parameter.  `.kind` names the class.
   SqlUnsupported recognisable SQL outside this parser's subset (GROUP BY, UNION, window functions ...).
@@ -82,6 +82,10 @@ def tokenize(text: str, paramstyle: Optional[str] = None) -> List[Tuple[str, str
     out: List[Tuple[str, str, int]] = []
     i = 0
     while i < len(text):
+        if text.startswith("--", i) or text.startswith("/*", i):
+            # a comment start: whatever follows is not part of the expression any more (`--"a" = 3`, `"a" = --3`)
+            raise SqlIllFormed(f"comment start {text[i:i + 2]!r} at offset {i}: the rest of the text is swallowed "
+                               f"({text[i:i + 14]!r})", "comment", i)
         m = _TOK.match(text, i)
         if not m or m.end() == i:
             ch = text[i]
